@@ -50,7 +50,7 @@ def tight_reference(u, present, fixed, ploidy):
 
 class Gen:
     """Everything observed at one generation."""
-    __slots__ = ("t", "n", "N", "ploidy", "count", "op", "opsite", "info", "present", "fixed1", "allfixed", "afreq", "offset", "icls")
+    __slots__ = ("t", "n", "N", "ploidy", "count", "op", "opsite", "info", "present", "fixed1", "allfixed", "afreq", "offset", "icls", "gdev")
 
 
 class HistoryMonitor:
@@ -90,13 +90,15 @@ class HistoryMonitor:
         return False
 
     # ------------------------------------------------------------------ per generation
-    def observe(self, t, op, opsite, mat, ploidy, limits, afreqs, gsc, gun, offset, icls=None):
+    def observe(self, t, op, opsite, mat, ploidy, limits, afreqs, gsc, gun, offset, icls=None, gdev=None):
         """
         mat     : integer allele matrix (phase, taxa, locus) of the population as stored by the library object
         limits  : {view: {"sc": (usl, lsl), "un": (usl, lsl)}}  reported limits (missing entries = call raised)
         afreqs  : {view: (reported frequency vector, defining class of afreq)} for GenotypeMatrix views
         gsc/gun : breeding values without / with intercept, shape (n, ntrait); gun may be None
         offset  : intercept vector contained in ``gun`` (tolerance scale and attribution only)
+        gdev    : {"sc"/"un": True} when the library-reported breeding values deviate from genotype @ effects (+ constant);
+                  they are judged as reported (they are what the limits promise to bracket); the flag only names the site
         """
         G = Gen()
         G.t, G.op, G.opsite, G.ploidy = t, op, opsite, int(ploidy)
@@ -111,6 +113,7 @@ class HistoryMonitor:
         refu, refl = tight_reference(self.u, G.present, G.fixed1, ploidy)
         prev = self.gens[-1] if self.gens else None
         G.icls = ic0 = icls or self.icls
+        G.gdev = gdev or {}     # scaling -> True when the breeding values the library reported differ from the integer definition
 
         # ---- C10.lost on integer counts (once per generation; by induction "count 0 at t => count 0 at every t' > t"
         #      is the same as "count 0 at t-1 => count 0 at t" for every t, so the masks are those of the predecessor)
@@ -231,6 +234,8 @@ class HistoryMonitor:
         """(site, input class) of the component that produced the reported limit ``kind`` of generation ``G``."""
         numpy_site = "%s.%s_numpy" % (defining_class(self.model, kind + "_numpy"), kind)
         val, dev = G.info.get((view, sc, kind), (None, False))
+        if G.gdev.get(sc) and not dev:
+            return self.gebv_site(G, sc)
         fr = G.info.get(("frequency", sc, kind))
         if view == "frequency" or (fr is not None and fr[1]):
             # wrong already when handed the correctly rounded frequency vector: the input form does not matter
@@ -259,4 +264,13 @@ class HistoryMonitor:
         for X in ([E, G] if ancestor_first else [G, E]):
             if X.info.get((view, sc, kind), (None, False))[1]:
                 return self.attribute(X, view, sc, kind)
+        if ancestor_first and G.gdev.get(sc):
+            return self.gebv_site(G, sc)
         return G.opsite, G.icls
+
+    def gebv_site(self, G, sc):
+        """The limits are what the reference says, the breeding values the library reported are not genotype @ effects."""
+        name = "gebv_numpy" if sc == "sc" else "gebv"
+        return ("%s.%s" % (defining_class(self.model, name), name) + ("" if sc == "sc" else "(...).unscale()"),
+                "more than 4096 taxa" if G.n > 4096 else "at most 4096 taxa",
+                "reported breeding values == genotype @ effects (+ intercept); the limits are right, the values leave them")
